@@ -38,10 +38,17 @@ type genLine struct {
 
 func sp(s string) *string { return &s }
 
-var userAlphabet = []string{"a", "b", "z", "A", "Q", "0", "7", "_", ".", "@", "-", "$", "é", "日", "🏝", "ö"}
+var userAlphabet = []string{"a", "b", "z", "A", "Q", "0", "7", "_", ".", "@", "-", "$", "é", "日", "🏝", "ö", "\u0130", "\u023a", "\u212a", "\u0131"}
+
+// blankRunNames: account names are client-chosen text; sshd prints them as they are, runs of blanks and tabs included
+var blankRunNames = []string{"a  b", "x   y", "tab\tbed", "j  r  r", "Doe,  John", " lead", "trail ", "  two", "two  ", "a \t b", "\t"}
 
 func genUser(r *hutil.Rand) string {
-	switch r.Intn(8) {
+	switch r.Intn(9) {
+	case 8:
+		if r.Chance(1, 2) {
+			return hutil.Pick(r, blankRunNames)
+		}
 	case 0:
 		return "root"
 	case 1:
@@ -63,7 +70,14 @@ func genUser(r *hutil.Rand) string {
 func genHostileUser(r *hutil.Rand) string {
 	frags := []string{" from ", " port ", "from", "port", " ", "  ", "\t", "x", "bob", "Certificate invalid: expired", "Accepted publickey", "Accepted password for root", "Invalid user ", "ROOT LOGIN REFUSED FROM ", "Failed password for ", "User root ", "Address 1.2.3.4 maps to x", "maximum authentication attempts exceeded for ", "6.6.6.6", "22", " ssh2", "invalid user ", "User ", "'", "\"", "\\", ":", "[", "]", "%", "日本", "a b",
 		"invalid user", "illegal user ", "#012", "\\n", "%0a", "&#10;", "#", "&"}
-	switch r.Intn(12) {
+	switch r.Intn(14) {
+	case 12, 13:
+		// letters whose lower / upper / title / folded form has another UTF-8 length, ligatures, final sigma, Turkish i's,
+		// combining marks, NFC / NFD variants (unicode.go): to the daemon a name is bytes, whatever it would look like folded
+		if r.Chance(1, 3) {
+			return genCaseText(r) + hutil.Pick(r, []string{" ", " from ", "", "", " port "}) + genCaseText(r)
+		}
+		return genCaseText(r)
 	case 8:
 		// one of the edge names: a phrase of sshd's own messages or a truncation of one, an escape-looking text, the empty name
 		return hutil.Pick(r, edgeNames)
@@ -198,7 +212,8 @@ var sshFragRE = regexp.MustCompile(` ssh[0-9A-Za-z]+: [0-9A-Za-z_ -]+:[^\t\n\f\r
 func noSSHFrag(kid string) bool { return !sshFragRE.MatchString(" " + kid) }
 
 var keyIDFrags = []string{" ", " ", "(", ")", "serial", "(serial 5)", " (serial 7) ", " from ", " port ", "from", "port", "ssh", " ssh", " ssh2", "ssh2:", " ssh2: ",
-	":", "a:b", "RSA SHA256:", "ID ", " CA ", "x", "ops", "jane", "doe", "é", "日", "@", "6.6.6.6", "22", "-", "_"}
+	":", "a:b", "RSA SHA256:", "ID ", " CA ", "x", "ops", "jane", "doe", "é", "日", "@", "6.6.6.6", "22", "-", "_",
+	"  ", "   ", "\t", " \t ", ",  ", "\u0130", "\u1e9e", "\u212a", "\u023a", "e\u0301", "\ufb01"}
 
 func genKeyID(r *hutil.Rand) string {
 	for {
@@ -210,7 +225,12 @@ func genKeyID(r *hutil.Rand) string {
 }
 
 func genKeyIDRaw(r *hutil.Rand) string {
-	switch r.Intn(12) {
+	switch r.Intn(14) {
+	case 12:
+		// runs of blanks and tabs INSIDE the key id (ssh-keygen -I takes any text): the id is recorded as it stands
+		return hutil.Pick(r, []string{"Doe,  John (ops)", "a  b", "a   b", "a\tb", "tab\t\tbed  id", "x \t y", "two  runs  here", "J.  R.  R.  T.", "  lead2", "trail2  ", "(a)  (serial  3)  b", "ops\t(laptop)"})
+	case 13:
+		return genCaseText(r)
 	case 0:
 		return "foo@bar.com"
 	case 1:
@@ -275,7 +295,9 @@ func genSerial(r *hutil.Rand) string {
 }
 
 func genPath(r *hutil.Rand) string {
-	return hutil.Pick(r, []string{"/etc/ssh/revoked_keys", "/home/bob/.ssh/authorized_keys", "/home/my user/.ssh/authorized keys", "/a b/c", "/tmp/x y z", "/bin/zsh", "/usr/local/bin/my shell"})
+	// paths are free text as far as the daemon is concerned: blanks, RUNS of blanks, tabs, non-ASCII letters
+	return hutil.Pick(r, []string{"/etc/ssh/revoked_keys", "/home/bob/.ssh/authorized_keys", "/home/my user/.ssh/authorized keys", "/a b/c", "/tmp/x y z", "/bin/zsh", "/usr/local/bin/my shell",
+		"/home/shared  drive/.ssh/authorized_keys", "/srv/a   b/keys", "/opt/tab\there/sh", "/mnt/x \t y/z", "/two  runs/of  blanks", "/trailing/blanks  ", "/home/\u0130brahim/.ssh/authorized_keys", "/home/\u023a\u023e/k"})
 }
 
 func genHostname(r *hutil.Rand) string {
@@ -337,7 +359,8 @@ func genForm(r *hutil.Rand, form string) genLine {
 		return genLine{Form: form, Line: fmt.Sprintf("Accepted password for %s from %s port %s ssh2", user, addr, port),
 			Exp: &expEvent{OK: true, Src: addr, Port: sp(port), LoggedAs: user, UserID: unk}, Forward: true, Cred: unk, Method: "PasswordLogin"}
 	case "cert_invalid":
-		reason := hutil.Pick(r, []string{"expired", "not yet valid", "name is not a listed principal", "source address not permitted", "reason with: colon", "x"})
+		reason := hutil.Pick(r, []string{"expired", "not yet valid", "name is not a listed principal", "source address not permitted", "reason with: colon", "x",
+			"name  is not a listed principal", "expired   (really)", "tab\there", "two  runs  of blanks", "\u0130\u212a expired"})
 		return genLine{Form: form, Line: "Certificate invalid: " + reason,
 			Exp: &expEvent{Src: unk, Port: sp(unk), LoggedAs: unk, UserID: unk, Data: map[string]string{"error": "certificate invalid", "reason": reason}}, Method: "SSHCertLogin"}
 	case "invalid_user":
@@ -562,4 +585,120 @@ func genPidToken(r *hutil.Rand, hostile bool) string {
 		return strconv.Itoa(1 + r.Intn(4000000))
 	}
 	return hutil.Pick(r, []string{"1", "007", "+5", "2147483647", "9223372036854775807", "9223372036854775808", "99999999999999999999", "", "0", "-3", "-0", "12a", "a", " 5", "5 ", "1_000", "0x10", "-9223372036854775808", "-9223372036854775809", "+", "-"})
+}
+
+// ---------- hostile bytes at token positions ----------
+
+// hostileTokens: what can stand where a daemon expects a word.  No blank inside (a token is what lies between two
+// blanks).  Invalid UTF-8 of every kind (lone continuation and lead bytes, truncated sequences, overlong forms, encoded
+// surrogates, code points beyond U+10FFFF, 0xfe/0xff), NUL and other control bytes, the replacement character itself,
+// quotes and what text templates / JSON / label syntaxes give a meaning to, the empty token, very long tokens.
+var hostileTokens = []string{
+	"\xff\xfe", "\xff", "\xc3", "\x80", "\xbf\xbf", "\xe2\x82", "\xf0\x9f\x8f", "\xc0\xaf", "\xe0\x80\xaf", "\xed\xa0\x80", "\xed\xbf\xbf", "\xf4\x90\x80\x80", "\xf8\x88\x80\x80\x80", "\xfe", "pass\xc3word", "\xc3(", "a\xffb",
+	"\x00", "a\x00b", "\x00\x00\x00", "\x01", "\x1b[31m", "\x7f", "\r", "\n", "x\ny", "\t", "\v", "\u0085", "\u00a0", "\u2028",
+	"", "\ufffd", "\ufeff", "\u202e", "\U0010ffff", "\U000e0001",
+	"\"", "'", "`", "\\", "\\\"", "\"\"", "{", "}", "{}", "{{.}}", "${x}", "%s", "%!s(MISSING)", "%", "%%", "<", "&", ",", "=", "=\"", "\",x=\"", "{method=\"x\"}", "#", ":", "/", "//", "..", "*", "?", "[", "(", ")", "(?", "$", "^", "|",
+	"-", "--", "-1", "0", "007", "+5", "1e9", "0x10", "99999999999999999999", "NaN", "null", "true", "nil", "<nil>",
+	"keyboard-interactive/pam", "keyboard-interactive", "hostbased", "gssapi-with-mic", "gssapi-keyex", "none", "publickey", "password", "PASSWORD", "Password", "publickey,password", "publickey:", "password\x00",
+}
+
+func genHostileToken(r *hutil.Rand) string {
+	switch r.Intn(12) {
+	case 0: // arbitrary bytes without blank
+		n := 1 + r.Intn(12)
+		b := make([]byte, n)
+		for i := range b {
+			for b[i] = byte(r.Intn(256)); b[i] == ' '; b[i] = byte(r.Intn(256)) {
+			}
+		}
+		return string(b)
+	case 1: // very long
+		return strings.Repeat(hutil.Pick(r, []string{"A", "\xff", "\x00", "é", "ab/", "{"}), 300+r.Intn(9000))
+	case 2: // an ordinary word with hostile bytes inside or around it
+		w := hutil.Pick(r, []string{"password", "publickey", "root", "ssh2", "22", "10.0.0.1", "RSA", "SHA256:abc", "from", "port", "for"})
+		h := hutil.Pick(r, hostileTokens)
+		k := r.Intn(len(w) + 1)
+		return w[:k] + h + w[k:]
+	case 3:
+		return genCaseText(r)
+	}
+	return hutil.Pick(r, hostileTokens)
+}
+
+// the authentication-result messages of sshd's auth.c (auth_log): "<Accepted|Failed|Postponed|Partial> <method>[/<submethod>]
+// for [invalid user ]<user> from <addr> port <port> ssh2[: <key info>]".  The daemon audits publickey and password results
+// only; every other method (and every other token in that place) is an unrecognised line to it: nothing is emitted,
+// nothing is counted, nothing crashes, whatever the token holds.
+var authVerbs = []string{"Accepted", "Failed", "Postponed", "Partial", "Accepted", "Failed"}
+
+func genGenericAuth(r *hutil.Rand, idx int) genLine {
+	verb := authVerbs[r.Intn(len(authVerbs))]
+	tok := genHostileToken(r)
+	if idx%2 == 0 {
+		// the systematic half: the listed tokens in order, the verbs in rotation (every token meets every verb as the walk goes on)
+		j := idx / 2
+		tok = hostileTokens[j%len(hostileTokens)]
+		verb = authVerbs[(j+j/len(hostileTokens))%len(authVerbs)]
+	}
+	user := genUser(r)
+	if r.Chance(1, 4) {
+		user = "invalid user " + user
+	}
+	line := fmt.Sprintf("%s %s for %s from %s port %s ssh2", verb, tok, user, genAddr(r), genPort(r))
+	switch r.Intn(6) {
+	case 0:
+		fp, sum := genFP(r)
+		line += fmt.Sprintf(": %s %s:%s", hutil.Pick(r, keyTypes), fp, sum)
+	case 1:
+		line += " [preauth]"
+	case 2: // the token directly before the rest, without " for "
+		line = fmt.Sprintf("%s %s", verb, tok)
+	case 3: // two blanks, or none, after the verb
+		line = strings.Replace(line, " ", hutil.Pick(r, []string{"  ", "", "\t"}), 1)
+	}
+	return genLine{Form: "generic_auth", Line: line}
+}
+
+var clientFormsAndAll = append(append([]string{}, formNamesAll...), "failed_password_invalid", "max_attempts_invalid")
+
+// genTokenReplaced: a well-formed message of one of the recognised shapes in which ONE blank-delimited token is replaced
+// by hostile bytes (or removed, or doubled), every position in turn: idx walks form-major through (form, position); the
+// keyword stays unless the position is inside it.  Nothing is claimed about the event (C11's oracle needs no
+// expectation): no panic, no error, at most one event, fields verbatim.
+func genTokenReplaced(r *hutil.Rand, idx int) genLine {
+	form := clientFormsAndAll[idx%len(clientFormsAndAll)]
+	var base string
+	switch form {
+	case "failed_password_invalid", "max_attempts_invalid":
+		base = clientNameLine(form, genUser(r), genAddr(r), genPort(r)).Line
+	default:
+		base = genForm(r, form).Line
+	}
+	toks := strings.Split(base, " ")
+	pos := (idx / len(clientFormsAndAll)) % len(toks)
+	if (idx/len(clientFormsAndAll))%2 == 1 {
+		// every other round a position of its own per form, so that a short run does not stay inside the keywords
+		pos = r.Intn(len(toks))
+	}
+	h := genHostileToken(r)
+	switch r.Intn(8) {
+	case 0: // the token gone (two blanks in a row stay)
+		toks[pos] = ""
+	case 1: // the token and its blank gone
+		toks = append(toks[:pos], toks[pos+1:]...)
+	case 2: // hostile bytes glued to the token
+		toks[pos] = toks[pos] + h
+	case 3:
+		toks[pos] = h + toks[pos]
+	default:
+		toks[pos] = h
+	}
+	line := strings.Join(toks, " ")
+	if len(line) > 150 && r.Chance(1, 2) {
+		// keep a share of the long ones short enough for the model
+		if len(h) > 40 {
+			line = strings.Replace(line, h, h[:40], 1)
+		}
+	}
+	return genLine{Form: "token_replaced", Line: line}
 }
